@@ -7,7 +7,7 @@ import (
 )
 
 func usage() {
-	fmt.Fprintln(os.Stderr, "usage: vh <schema|rewrite|textvec> [flags]")
+	fmt.Fprintln(os.Stderr, "usage: vh <schema|rewrite|textvec|cli|api> [flags]")
 	os.Exit(2)
 }
 
@@ -33,6 +33,21 @@ func main() {
 		out := fs.String("out", "", "vectors ndjson")
 		fs.Parse(args)
 		err = cmdTextVec(*in, *out)
+	case "cli":
+		fs := flag.NewFlagSet(cmd, flag.ExitOnError)
+		in := fs.String("in", "", "scenarios ndjson")
+		out := fs.String("out", "", "runs ndjson")
+		bin := fs.String("bin", "", "gopatch binary")
+		work := fs.String("work", "", "scratch directory")
+		par := fs.Int("j", 8, "parallelism")
+		fs.Parse(args)
+		err = cmdCli(*in, *out, *bin, *work, *par)
+	case "api":
+		fs := flag.NewFlagSet(cmd, flag.ExitOnError)
+		in := fs.String("in", "", "requests ndjson")
+		out := fs.String("out", "", "results ndjson")
+		fs.Parse(args)
+		err = cmdAPI(*in, *out)
 	default:
 		usage()
 	}
